@@ -28,7 +28,17 @@ def dump(src):
 
 def main():
     cases = json.load(open(sys.argv[1]))
-    outs = [{"v2": dump(c["v2"]), "v3": dump(c["v3"])} for c in cases]
+    outs = []
+    for c in cases:
+        # earlier loads in the same process (other library selections): whatever they do, they are over before the case starts
+        for h in c.get("history", []):
+            try:
+                from mpilot.program import Program
+
+                Program.from_source(h["src"], libraries=tuple(h["libraries"]))
+            except Exception:
+                pass
+        outs.append({"v2": dump(c["v2"]), "v3": dump(c["v3"])})
     json.dump(outs, open(sys.argv[2], "w"))
 
 
